@@ -154,7 +154,7 @@ class GlobalVersion(TlbScheme):
         tag = cell_slice.load_bytes(1)
         if tag[:1] != b'\xc4':
             raise BlockError(f'GlobalVersion deserialization error: unknown prefix: {tag}')
-        return cls(version=cell_slice.load_int(32), capabilities=cell_slice.load_uint(64))
+        return cls(version=cell_slice.load_uint(32), capabilities=cell_slice.load_uint(64))
 
 
 class BlkMasterInfo(TlbScheme):
